@@ -2135,6 +2135,19 @@ func loopVisitsEvery(p *Prog, fi *FuncInfo, isCollection func(e ast.Expr) bool, 
 	// (helpers are spliced in: the loop may sit in one; infeasible branches of a shared helper are pruned by
 	// nil-facts; calls of the functions in keep stay calls)
 	f := p.FlatInlExcept(fi, keep...)
+	// (the parameter of a spliced-in helper stands for the collection it was handed)
+	plain := isCollection
+	isCollection = func(e ast.Expr) bool {
+		if plain(e) {
+			return true
+		}
+		if o := objOf(f.Pkg.TypesInfo, e); o != nil && f.Alias != nil {
+			if a, ok := f.Alias[o]; ok {
+				return plain(a)
+			}
+		}
+		return false
+	}
 	var loop *ast.RangeStmt
 	scopes := []*ast.BlockStmt{fi.Decl.Body}
 	seenBody := map[string]bool{}
